@@ -215,6 +215,9 @@ def check(ctx):
     """all L1 obligations on the finished run"""
     E, p, trials, cbs = ctx.E, ctx.params, ctx.trials, ctx.cbs
     Status = boot.mod("status").SolverStatus
+    # reaching this point means solve() returned a result or raised one of its deliberate errors
+    # (anything else propagated out of the harness and is recorded as a crash)
+    E.prove(ctx.aborted or isinstance(ctx.res.status, Status), "C06.solve_ends_with_a_status_or_a_deliberate_error")
     shape = ctx.shape
     # ---------------- C15 / C16 over the sequence of trials (also when the solve aborted)
     for k, t in enumerate(trials):
